@@ -32,6 +32,8 @@ var rcptCorpus = []struct {
 	{"0", "c0,o0,s0,q0,x0,d"},    // defect witness before the fix: lookup+delete, cancel (close), send
 	{"0", "c0,o0,q0,x0,s0,d"},    //
 	{"0", "c0,q0,f0,d"},          // lookup, then the transmission fails: nobody receives
+	{"0,1", "c0,q7,q0,d,o0,s0"},  // receipts arrive WHILE the message is still being written (the sender is parked inside SendElement): the handler must not wait for it
+	{"0,1", "c0,o0,c1,q0,d,q7,o1,s0,s1"},
 	{"0", "c0,f0,q0"},            // failed transmission must not leave the id registered
 	{"0", "c0,o0,s0,x0,q0"},      // late receipt is unhandled
 	{"0", "c0,o0,s0,q0,d,q0,q7"}, // duplicate and unknown receipts are unhandled
